@@ -18,7 +18,6 @@
 #include "verif.h"
 
 #include <fcntl.h>
-#include <setjmp.h>
 #include <signal.h>
 #include <memory>
 
@@ -231,10 +230,25 @@ struct Exec {
         const double now = I->getTime();
         const bool oldWindow = cfg.wit ? windowPredatesRequest() : false;
         Status st = Integrator::InvalidSuccessfulStepStatus; bool threw = false; std::string what;
+        odesys::workBudget() = 20000;      // realizations; an ordinary request on this lattice needs < 500
         try {
             if (kind == 0) st = I->stepTo(r, s);
             else st = I->stepBy(r - now, s - now);
         } catch (const std::exception& e) { threw = true; what = e.what(); }
+        // exhausted budget: the call looped.  (The exception may have been swallowed inside the library -- CPODES'
+        // callbacks catch everything -- so the budget itself is the criterion, not the exception that surfaces.)
+        const bool exhausted = odesys::workBudget() == 0;
+        odesys::workBudget() = -1;
+        if (exhausted) {
+            calls++;
+            if (tracing) { char b[300]; snprintf(b, sizeof b, "  %s %s(%.17g, %.17g) at t=%.17g DOES NOT TERMINATE (20000 realizations spent)\n", tag, kind ? "stepBy->" : "stepTo", r, s, now); trace += b; }
+            outcomeHash = verif::hashStr("loops", outcomeHash);
+            if (judge) {
+                if (!tracing) sawFailure = true;
+                else run.expect(false, std::string(INTEG_NAMES[cfg.integ]) + "/request-never-returns", [&] { return "the request kept realizing the state without returning (stopped after 20000 realizations)\n  at " + where(); }, [&] { return replay(); });
+            }
+            dead = true; return;
+        }
         if (kind == 1) { r = now + (r - now); s = now + (s - now); }     // the times stepBy documents: now + interval
         calls++;
         char line[400];
@@ -379,48 +393,28 @@ static std::vector<Op> alphabet() {
 // state after `op` (before the tail); enabled=false if op was not enabled.  `distinctCase`: this (cfg, history)
 // is not enumerated by any other section (so the distinct-case count is exact by construction).
 struct StepResult { bool enabled = false; uint64_t key = 0; bool ended = false, dead = false; };
-static sigjmp_buf g_hangJmp;
-static int g_hangsThisItem = 0;      // a configuration that hangs does so for many histories: after 3 the item is abandoned (counted, run not exhaustive)
-static bool tooManyHangs(verif::Run& run) {
-    if (!run.thorough()) return false;           // quick tier: few enough (about 25, all in CPodes no-interp + final time) to wait for
-    if (g_hangsThisItem < 3) return false;
-    if (g_hangsThisItem == 3) { g_hangsThisItem++; run.count("items_abandoned_after_3_requests_that_never_return"); run.acc.expired = true; }
-    return true;
-}
-static void onAlarm(int) { siglongjmp(g_hangJmp, 1); }
 static StepResult runHistory(verif::Run& run, const Cfg& cfg, const std::vector<Op>& prefix, const Op& op, bool distinctCase, bool withTail = true) {
     StepResult R;
-    // watchdog: a request that does not return within 2 s abandons the (leaked) integrator and is reported
-    static bool installed = false;
-    if (!installed) { installed = true; struct sigaction sa; memset(&sa, 0, sizeof sa); sa.sa_handler = onAlarm; sa.sa_flags = SA_NODEFER; sigaction(SIGALRM, &sa, nullptr); }
+    // Requests that loop inside the library are stopped by the odesys work budget (an exception).  The alarm is only a
+    // last resort for a loop that does not even realize the state: it kills this worker (reported as worker-crash).
+    alarm(300);
     for (int pass = 0; pass < 2; ++pass) {
-        Exec* X = new Exec(run, cfg, pass == 1 || run.verbose);
-        if (sigsetjmp(g_hangJmp, 1)) {
-            std::vector<Op> h = prefix; h.push_back(op);
-            run.expect(false, std::string(INTEG_NAMES[cfg.integ]) + "/request-never-returns", [&] { return "a stepTo/stepBy call (or the drive to the end) did not return within 2 s: " + cfg.str() + " [" + cfg.optStr() + "] history=" + histStr(h) + "\n" + X->trace; },
-                       [&] { return "cfg=" + cfg.str() + "\nhistory=" + histStr(h) + "\n" + X->trace; });
-            R.enabled = true; R.dead = true;      // X is leaked on purpose: its integrator is in an unknown state
-            g_hangsThisItem++;
-            return R;
-        }
-        alarm(2);
-        for (auto& o : prefix) X->apply(o, false);
-        if (!X->enabled(op)) { alarm(0); delete X; break; }
+        Exec X(run, cfg, pass == 1 || run.verbose);
+        for (auto& o : prefix) X.apply(o, false);
+        if (!X.enabled(op)) break;
         R.enabled = true;
-        X->apply(op, true);
-        R.key = canonKey(*X->I, cfg.cpodes());
-        R.ended = X->ended; R.dead = X->dead;
-        if (withTail) X->tail();
-        alarm(0);
+        X.apply(op, true);
+        R.key = canonKey(*X.I, cfg.cpodes());
+        R.ended = X.ended; R.dead = X.dead;
+        if (withTail) X.tail();
         if (pass == 0) {
             run.evaluationDistinct(distinctCase);
-            run.outcome(verif::hashMix(verif::hashStr(INTEG_NAMES[cfg.integ]), X->outcomeHash));
+            run.outcome(verif::hashMix(verif::hashStr(INTEG_NAMES[cfg.integ]), X.outcomeHash));
         }
-        if (run.verbose) printf("%s\n%s", cfg.str().c_str(), X->trace.c_str());
-        const bool again = X->sawFailure;
-        delete X;
-        if (!again) break;
+        if (run.verbose) printf("%s\n%s", cfg.str().c_str(), X.trace.c_str());
+        if (!X.sawFailure) break;
     }
+    alarm(0);
     return R;
 }
 
@@ -428,7 +422,6 @@ static StepResult runHistory(verif::Run& run, const Cfg& cfg, const std::vector<
 static void dfs(verif::Run& run, const Cfg& cfg, std::vector<Op>& prefix, int depth, const std::vector<Op>& A, int64_t& nHist, bool distinctBase) {
     if (depth == 0 || run.expired()) return;
     for (auto& o : A) {
-        if (tooManyHangs(run)) return;
         StepResult R = runHistory(run, cfg, prefix, o, distinctBase && prefix.size() + 1 >= 3);
         if (!R.enabled) continue;
         nHist++;
@@ -438,7 +431,7 @@ static void dfs(verif::Run& run, const Cfg& cfg, std::vector<Op>& prefix, int de
 
 int main(int argc, char** argv) {
     verif::Run run("C19", argc, argv);
-    run.setDeadline(1200, 5400);   // safety net only: quick needs ~20-40 s on 16 idle cores (about 320 CPU-s), see notes
+    run.setDeadline(1200, 10800);   // safety net only: quick needs ~20-40 s on 16 idle cores (about 320 CPU-s), see notes
     const bool thorough = run.thorough();
     const std::vector<Op> A = alphabet();
     const std::vector<Op>& Afull = A;
@@ -459,7 +452,7 @@ int main(int argc, char** argv) {
                        "cpodes section: the first call's arguments are fixed to (now,now); that the first call ignores its arguments is checked in the plain section on the visible state only",
                        "requests with a time in the past are a documented precondition violation and are not issued",
                        "a scheduled time earlier than both the advanced time and the pending scheduled time of the previous request contradicts what the integrator was allowed to do and is not issued",
-                       "thorough tier: a parallel item in which 3 requests never returned (2 s watchdog) is abandoned and the run is reported as not exhaustive"};
+                       "a request that keeps realizing the state without returning is stopped by a work budget of 20000 realizations (an ordinary request needs < 500) and reported"};
 
     // ---- direct replay of one history
     if (run.replaying() && !run.replayField("history").empty()) {
@@ -497,7 +490,6 @@ int main(int argc, char** argv) {
     // ---- section plain: every history of length <= 2, no merging
     run.parallel("plain", (int64_t)all.size(), [&](int64_t i) {
         quietWorker(run);
-        g_hangsThisItem = 0;
         const Cfg& cfg = all[i];
         std::set<uint64_t> firstKeys;
         std::vector<Op> prefix; int64_t nHist = 0;
@@ -510,7 +502,7 @@ int main(int argc, char** argv) {
             firstKeys.insert(R.key);
             if (R.ended || R.dead) continue;
             prefix.push_back(o1);
-            for (auto& o2 : A) { if (tooManyHangs(run)) break; StepResult R2 = runHistory(run, cfg, prefix, o2, true); if (R2.enabled) nHist++; }
+            for (auto& o2 : A) { StepResult R2 = runHistory(run, cfg, prefix, o2, true); if (R2.enabled) nHist++; }
             prefix.pop_back();
         }
         // the assumption the cpodes section and the depth accounting rest on
@@ -525,7 +517,6 @@ int main(int argc, char** argv) {
     // ---- section bfs: AbstractIntegratorRep family, merging canonical states
     run.parallel("bfs", (int64_t)abs.size(), [&](int64_t i) {
         quietWorker(run);
-        g_hangsThisItem = 0;
         const Cfg& cfg = abs[i];
         std::set<uint64_t> seen;
         { Exec X(run, cfg, false); seen.insert(canonKey(*X.I, false)); run.state(verif::hashMix(verif::hashStr(cfg.str()), canonKey(*X.I, false))); }
@@ -536,7 +527,6 @@ int main(int argc, char** argv) {
             for (auto& h : frontier) {
                 if (run.expired()) break;
                 for (auto& o : A) {
-                    if (tooManyHangs(run)) break;
                     StepResult R = runHistory(run, cfg, h, o, h.size() + 1 >= 3);
                     if (!R.enabled) continue;
                     nRuns++;
@@ -563,7 +553,6 @@ int main(int argc, char** argv) {
         for (auto& c : cps) for (auto& o : A) items.push_back({c, o});
         run.parallel("cpodes", (int64_t)items.size(), [&](int64_t i) {
         quietWorker(run);
-        g_hangsThisItem = 0;
             const Cfg& cfg = items[i].cfg;
             Op first; first.kind = 0; first.ri = 0; first.si = 0;
             std::vector<Op> prefix = {first};
@@ -584,7 +573,6 @@ int main(int argc, char** argv) {
             // all histories of length 3 with an unrestricted first call
             run.parallel("cpodes-full3", (int64_t)items.size(), [&](int64_t i) {
         quietWorker(run);
-        g_hangsThisItem = 0;
                 const Cfg& cfg = items[i].cfg;
                 if (cfg.lat != lats[0] || cfg.integ != CPODES0 || cfg.wit != 0) return;     // BDF, first lattice, no witness
                 std::vector<Op> prefix;
